@@ -198,6 +198,41 @@ func runC02(c *Ctx) {
 		c.NoReach("R02.3", "no read of writePos/storage after a goroutine was spawned", f, After(f, isGo), 2,
 			func(in ssa.Instruction) bool { fld, ok := li.guardedAccess(in); return ok && fld != "" }, CutSpec{})
 
+		if name == "WatchAll" {
+			// the bootstrap snapshot is built here, from storage, inside the critical section that also fixes pos
+			// (a snapshot obtained through a self-locking helper such as List would be a second critical section)
+			okSnap, nApp := true, 0
+			why := ""
+
+			for _, in := range Find(f, func(in ssa.Instruction) bool {
+				st, ok := in.(*ssa.Store)
+
+				return ok && Glob("var:bootstrapList", p.Desc(st.Addr))
+			}) {
+				v := Fwd(in.(*ssa.Store).Val)
+
+				switch x := v.(type) {
+				case *ssa.Const, *ssa.MakeSlice:
+				case *ssa.Call:
+					if p.CalleeName(x) != "builtin.append" || li.HeldAt(in) <= 0 {
+						okSnap, why = false, "bootstrapList assigned from "+p.Desc(v)
+					} else {
+						nApp++
+					}
+				default:
+					okSnap, why = false, "bootstrapList assigned from "+p.Desc(v)
+				}
+			}
+
+			rng := Find(f, func(in ssa.Instruction) bool { r, ok := in.(*ssa.Range); return ok && LoadsField(r.X, "ResourceCollection", "storage") })
+			c.Check(okSnap && nApp >= 1 && len(rng) == 1 && li.HeldAt(rng[0]) > 0, "R02.3", FuncName(f)+" :: bootstrap snapshot is built from storage inside the critical section that reads writePos", fpos(f),
+				"range over storage + append under the lock", "snapshot not taken in this critical section: "+why)
+
+			for _, call := range p.Calls(f, collT+".List", collT+".Get") {
+				c.Bad("R02.3", FuncName(f)+" :: no self-locking collection method is used for the snapshot", call.Pos(), p.CalleeName(call)+" takes the mutex itself: snapshot and start position end up in different critical sections")
+			}
+		}
+
 		if c.NeedFunc("R02.3", del, name+" delivery goroutine") && c.NeedFunc("R02.3", ctxw, name+" ctx watcher goroutine") {
 			okPos := true
 			n := 0
